@@ -237,9 +237,9 @@ fn handle_item(
                 handle_body(body, &mut dest, subscope, file_context)?;
             }
         }
-        Item::AtMedia { args, body, pos: _ } => {
+        Item::AtMedia { args, body, pos } => {
             let args = args.evaluate(scope.clone())?;
-            let mut atmedia = dest.start_atmedia(args.try_into()?);
+            let mut atmedia = dest.start_atmedia(args.try_into()?).at(pos)?;
             if let Some(body) = body {
                 let local = ScopeRef::sub(scope);
                 handle_body(body, &mut atmedia, local, file_context)?;
@@ -254,7 +254,8 @@ fn handle_item(
             let name = name.evaluate(scope.clone())?.take_value();
             let args = args.evaluate(scope.clone())?;
             if let Some(body) = body {
-                let mut atrule = dest.start_atrule(name.clone(), args);
+                let mut atrule =
+                    dest.start_atrule(name.clone(), args).at(pos)?;
                 let local = if is_keyframes(&name) {
                     ScopeRef::sub_selectors(scope, SelectorCtx::root())
                 } else {
